@@ -1,7 +1,7 @@
 SPECIFICATION Spec
 CONSTANTS
   Cls = {"P"}
-  MsgKinds = {"kwtemplate", "kwcustom", "kwattr"}
+  MsgKinds = {"kwtemplate", "kwcustom", "kwattr", "kwhostile"}
   Outs = {"T", "F"}
   DelayCls = {}
   Vals = {"o1"}
